@@ -184,7 +184,7 @@ theorem dget_setCount (d : CScores) (s : Rat) (n : Int) (k : Rat) :
     · rw [if_neg hq, dget_cons, dget_cons, ih]
       simp only
       by_cases h : q = k
-      · rw [if_pos h, if_pos h]
+      · rw [if_pos h, if_pos h, if_neg (fun e => hq (h.trans e))]
       · rw [if_neg h, if_neg h]
 
 /-- the same count dict up to insertion order (keys distinct, as in every dict) -/
@@ -262,7 +262,7 @@ theorem listMin_perm {l l' : List Rat} (h : l.Perm l') : listMin l = listMin l' 
   cases hl : listMin l with
   | error e =>
     cases l with
-    | nil => rw [h.nil_eq] at hl ⊢; rfl
+    | nil => rw [← h.nil_eq, hl]
     | cons x xs => cases hl
   | ok m =>
     cases hl' : listMin l' with
@@ -297,5 +297,559 @@ theorem subtractLowest_go_cequiv (cutoff : Int) : ∀ (ks : List Rat) (a b : CSc
 theorem subtractLowest_cequiv {a b : CScores} (h : CEquiv a b) (ks : List Rat) (cutoff : Int) :
     CEquiv (subtractLowest a ks cutoff) (subtractLowest b ks cutoff) :=
   subtractLowest_go_cequiv cutoff ks a b 0 h
+
+/-! ### `_correct_candidate_scores` -/
+
+/-- the `unscored_value` stage of `correctOne` -/
+def unscoredStep (cfg : Cfg) (scores : CScores) (nVotes : Int) : Except Err CScores :=
+  match cfg.unscored with
+  | .none => pure scores
+  | .value u => pure (setCount scores u (nVotes - totalCount scores + getCount scores u))
+  | .min => do
+    let u ← listMin (expand scores)
+    pure (setCount scores u (nVotes - totalCount scores + getCount scores u))
+
+/-- the truncation stage of `correctOne` -/
+def truncStep (cfg : Cfg) (scores1 : CScores) (nVotes nScores : Int) : CScores :=
+  match cfg.trunc with
+  | .off => scores1
+  | .frac r =>
+    let cutoff := Py.pyInt ((((if nVotes ≠ 0 then nVotes else nScores) : Int) : Rat) * r)
+    let keys := sortR (scores1.map (·.1))
+    subtractLowest (subtractLowest scores1 keys cutoff) keys.reverse cutoff
+  | .count k =>
+    let cutoff : Int := k
+    let keys := sortR (scores1.map (·.1))
+    subtractLowest (subtractLowest scores1 keys cutoff) keys.reverse cutoff
+
+theorem correctOne_eq (cfg : Cfg) (scores : CScores) (nVotes : Int) :
+    correctOne cfg scores nVotes =
+      if totalCount scores < cfg.minCount then .ok [(cfg.bottom, cfg.minCount)]
+      else match unscoredStep cfg scores nVotes with
+        | .error e => .error e
+        | .ok s1 => .ok (truncStep cfg s1 nVotes (totalCount scores)) := by
+  unfold correctOne unscoredStep truncStep
+  simp only
+  split
+  · rfl
+  · cases cfg.unscored with
+    | none => cases cfg.trunc <;> rfl
+    | value u => cases cfg.trunc <;> rfl
+    | min =>
+      cases listMin (expand scores) with
+      | error e => rfl
+      | ok u => cases cfg.trunc <;> rfl
+
+theorem unscoredStep_cequiv (cfg : Cfg) {a b : CScores} (h : CEquiv a b) (nVotes : Int) :
+    ExceptEquiv CEquiv (unscoredStep cfg a nVotes) (unscoredStep cfg b nVotes) := by
+  unfold unscoredStep
+  rw [← totalCount_perm h.1, ← listMin_perm (expand_perm h.1)]
+  cases cfg.unscored with
+  | none => exact h
+  | value u => simp only [← h.getCount_eq]; exact h.setCount _ _
+  | min =>
+    simp only
+    cases listMin (expand a) with
+    | error e => exact rfl
+    | ok u => simp only [← h.getCount_eq]; exact h.setCount _ _
+
+theorem truncStep_cequiv (cfg : Cfg) {a b : CScores} (h : CEquiv a b) (nVotes nScores : Int) :
+    CEquiv (truncStep cfg a nVotes nScores) (truncStep cfg b nVotes nScores) := by
+  have hk : sortR (a.map (·.1)) = sortR (b.map (·.1)) := sortR_eq_of_perm (h.1.map _)
+  unfold truncStep
+  cases cfg.trunc with
+  | off => exact h
+  | frac r =>
+    simp only [← hk]
+    exact subtractLowest_cequiv (subtractLowest_cequiv h _ _) _ _
+  | count k =>
+    simp only [← hk]
+    exact subtractLowest_cequiv (subtractLowest_cequiv h _ _) _ _
+
+/-- `_correct_candidate_scores` does not see the insertion order of the count dict -/
+theorem correctOne_cequiv (cfg : Cfg) {a b : CScores} (h : CEquiv a b) (nVotes : Int) :
+    ExceptEquiv CEquiv (correctOne cfg a nVotes) (correctOne cfg b nVotes) := by
+  rw [correctOne_eq, correctOne_eq, ← totalCount_perm h.1]
+  split
+  · exact CEquiv.refl (by simp [ckeys])
+  · have hu := unscoredStep_cequiv cfg h nVotes
+    cases h1 : unscoredStep cfg a nVotes with
+    | error e =>
+      cases h2 : unscoredStep cfg b nVotes with
+      | error e' => rw [h1, h2] at hu; exact hu
+      | ok y => rw [h1, h2] at hu; exact hu.elim
+    | ok x =>
+      cases h2 : unscoredStep cfg b nVotes with
+      | error e' => rw [h1, h2] at hu; exact hu.elim
+      | ok y => rw [h1, h2] at hu; exact truncStep_cequiv cfg hu _ _
+
+/-- the only exception `_correct_candidate_scores` raises is the `ValueError` of `min()` of nothing -/
+theorem correctOne_error {cfg : Cfg} {a : CScores} {nVotes : Int} {e : Err} (h : correctOne cfg a nVotes = .error e) :
+    e = .valueError := by
+  rw [correctOne_eq] at h
+  split at h
+  · cases h
+  · unfold unscoredStep at h
+    cases hu : cfg.unscored with
+    | none => rw [hu] at h; cases h
+    | value u => rw [hu] at h; cases h
+    | min =>
+      rw [hu] at h
+      simp only at h
+      cases hm : listMin (expand a) with
+      | error e' =>
+        rw [hm] at h
+        have := listMin_error hm
+        subst this
+        injection h with h; exact h.symm
+      | ok u => rw [hm] at h; cases h
+
+/-! ### the nested dict `scores` (`Dict[candidate, Dict[score, count]]`) as a map -/
+
+def tkeys (t : ScoreTable) : List Cand := t.map (·.1)
+
+/-- distinct candidates, and distinct grades in every count dict -/
+def TWF (t : ScoreTable) : Prop := (tkeys t).Nodup ∧ ∀ p ∈ t, (ckeys p.2).Nodup
+
+theorem tableGet_eq_dget (t : ScoreTable) (c : Cand) : tableGet t c = dget t c := by
+  unfold tableGet dget
+  cases t.find? (fun p => p.1 = c) <;> rfl
+
+theorem dget_addScore (t : ScoreTable) (c : Cand) (s : Rat) (n : Int) (c' : Cand) :
+    dget (addScore t c s n) c' = if c' = c then some (addCount ((dget t c).getD []) s n) else dget t c' := by
+  induction t with
+  | nil =>
+    simp only [addScore, dget_cons, dget_nil]
+    by_cases h : c' = c
+    · rw [if_pos h.symm, if_pos h]; rfl
+    · rw [if_neg (fun e => h e.symm), if_neg h]
+  | cons p ps ih =>
+    obtain ⟨k, cs⟩ := p
+    unfold addScore
+    by_cases hk : k = c
+    · rw [if_pos hk, dget_cons, dget_cons, dget_cons]
+      simp only
+      by_cases h : c' = c
+      · rw [if_pos (hk.trans h.symm), if_pos h, if_pos hk]; rfl
+      · rw [if_neg (fun e => h (e.symm.trans hk)), if_neg h, if_neg (fun e => h (e.symm.trans hk))]
+    · rw [if_neg hk, dget_cons, dget_cons, dget_cons, ih]
+      simp only
+      rw [if_neg hk]
+      by_cases h : k = c'
+      · rw [if_pos h, if_pos h, if_neg (fun e => hk (h.trans e))]
+      · rw [if_neg h, if_neg h]
+
+theorem mem_tkeys_addScore (t : ScoreTable) (c : Cand) (s : Rat) (n : Int) (c' : Cand) :
+    c' ∈ tkeys (addScore t c s n) ↔ c' ∈ tkeys t ∨ c' = c := by
+  unfold tkeys
+  rw [← dget_isSome, ← dget_isSome, dget_addScore]
+  by_cases h : c' = c
+  · simp [h]
+  · simp [h]
+
+theorem TWF_addScore {t : ScoreTable} (h : TWF t) (c : Cand) (s : Rat) (n : Int) : TWF (addScore t c s n) := by
+  induction t with
+  | nil =>
+    refine ⟨by simp [addScore, tkeys], ?_⟩
+    intro p hp
+    simp only [addScore, List.mem_singleton] at hp
+    subst hp
+    exact ckeys_setCount_nodup (by simp [ckeys]) _ _
+  | cons p ps ih =>
+    obtain ⟨k, cs⟩ := p
+    obtain ⟨h1, h2⟩ := h
+    have h1' : k ∉ tkeys ps ∧ (tkeys ps).Nodup := List.nodup_cons.mp h1
+    have hps : TWF ps := ⟨h1'.2, fun q hq => h2 q (List.mem_cons_of_mem _ hq)⟩
+    unfold addScore
+    by_cases hk : k = c
+    · rw [if_pos hk]
+      refine ⟨h1, ?_⟩
+      intro q hq
+      rcases List.mem_cons.mp hq with rfl | hq'
+      · exact ckeys_setCount_nodup (h2 (k, cs) List.mem_cons_self) _ _
+      · exact h2 q (List.mem_cons_of_mem _ hq')
+    · rw [if_neg hk]
+      have ih' := ih hps
+      refine ⟨?_, ?_⟩
+      · show (k :: tkeys (addScore ps c s n)).Nodup
+        refine List.nodup_cons.mpr ⟨?_, ih'.1⟩
+        rw [mem_tkeys_addScore]
+        rintro (h | h)
+        · exact h1'.1 h
+        · exact hk h
+      · intro q hq
+        rcases List.mem_cons.mp hq with rfl | hq'
+        · exact h2 (k, cs) List.mem_cons_self
+        · exact ih'.2 q hq'
+
+/-- the nested dict read as a map candidate -> (grade -> count) -/
+abbrev Sem := Cand → Option (Rat → Option Int)
+
+def sem (t : ScoreTable) : Sem := fun c => (dget t c).map (fun cs => dget cs)
+
+def semRow (m : Sem) (c : Cand) : Rat → Option Int := (m c).getD (fun _ => none)
+
+/-- `scores[cand][score] += n` on the map -/
+def upd (m : Sem) (x : Cand × Rat × Int) : Sem :=
+  Function.update m x.1 (some (Function.update (semRow m x.1) x.2.1 (some (((semRow m x.1) x.2.1).getD 0 + x.2.2))))
+
+theorem semRow_sem (t : ScoreTable) (c : Cand) : semRow (sem t) c = dget ((dget t c).getD []) := by
+  unfold semRow sem
+  cases dget t c with
+  | none => funext k; rfl
+  | some cs => rfl
+
+theorem sem_addScore (t : ScoreTable) (x : Cand × Rat × Int) : sem (addScore t x.1 x.2.1 x.2.2) = upd (sem t) x := by
+  obtain ⟨c, s, n⟩ := x
+  funext c'
+  unfold upd
+  simp only
+  by_cases h : c' = c
+  · subst h
+    rw [Function.update_self]
+    unfold sem
+    rw [dget_addScore, if_pos rfl]
+    simp only [Option.map_some]
+    congr 1
+    funext k
+    unfold addCount
+    rw [dget_setCount, Function.update_apply]
+    have := semRow_sem t c'
+    unfold sem at this
+    rw [this, getCount_eq_dget]
+  · rw [Function.update_of_ne h]
+    unfold sem
+    rw [dget_addScore, if_neg h]
+
+/-- the update is commutative: the order of the `+=` does not matter for the map -/
+theorem upd_comm (m : Sem) (x y : Cand × Rat × Int) : upd (upd m x) y = upd (upd m y) x := by
+  obtain ⟨c₁, s₁, n₁⟩ := x
+  obtain ⟨c₂, s₂, n₂⟩ := y
+  unfold upd
+  simp only
+  by_cases hc : c₁ = c₂
+  · subst hc
+    simp only [semRow, Function.update_self, Function.update_idem, Option.getD_some]
+    congr 2
+    by_cases hs : s₁ = s₂
+    · subst hs
+      simp only [Function.update_self, Function.update_idem, Option.getD_some]
+      congr 2
+      omega
+    · have hs' : s₂ ≠ s₁ := fun e => hs e.symm
+      rw [Function.update_of_ne hs', Function.update_of_ne hs, Function.update_comm hs]
+  · have hc' : c₂ ≠ c₁ := fun e => hc e.symm
+    have e1 : semRow (Function.update m c₁ (some (Function.update (semRow m c₁) s₁ (some ((semRow m c₁ s₁).getD 0 + n₁))))) c₂
+        = semRow m c₂ := by
+      unfold semRow; rw [Function.update_of_ne hc']
+    have e2 : semRow (Function.update m c₂ (some (Function.update (semRow m c₂) s₂ (some ((semRow m c₂ s₂).getD 0 + n₂))))) c₁
+        = semRow m c₁ := by
+      unfold semRow; rw [Function.update_of_ne hc]
+    rw [e1, e2, Function.update_comm hc]
+
+/-- the `(candidate, grade, count)` increments of the double loop convert.py L188-191, in order -/
+def flat (votes : SProfile) : List (Cand × Rat × Int) :=
+  votes.flatMap (fun bn => bn.1.map (fun cs => (cs.1, cs.2, bn.2)))
+
+theorem rawScores_eq_fold (votes : SProfile) :
+    rawScores votes = (flat votes).foldl (fun t x => addScore t x.1 x.2.1 x.2.2) [] := by
+  unfold rawScores flat
+  rw [List.foldl_flatMap]
+  congr 1
+  funext t bn
+  rw [List.foldl_map]
+
+theorem sem_fold (L : List (Cand × Rat × Int)) : ∀ t : ScoreTable,
+    sem (L.foldl (fun t x => addScore t x.1 x.2.1 x.2.2) t) = L.foldl upd (sem t) := by
+  induction L with
+  | nil => intro t; rfl
+  | cons x xs ih => intro t; rw [List.foldl_cons, List.foldl_cons, ih, sem_addScore]
+
+theorem TWF_fold (L : List (Cand × Rat × Int)) : ∀ t : ScoreTable, TWF t →
+    TWF (L.foldl (fun t x => addScore t x.1 x.2.1 x.2.2) t) := by
+  induction L with
+  | nil => intro t h; exact h
+  | cons x xs ih => intro t h; rw [List.foldl_cons]; exact ih _ (TWF_addScore h _ _ _)
+
+theorem TWF_rawScores (votes : SProfile) : TWF (rawScores votes) := by
+  rw [rawScores_eq_fold]
+  exact TWF_fold _ _ ⟨List.nodup_nil, fun p hp => by cases hp⟩
+
+/-- as a map, `scores` does not depend on the ballot order -/
+theorem sem_rawScores_perm {p₁ p₂ : SProfile} (hf : (flat p₁).Perm (flat p₂)) : sem (rawScores p₁) = sem (rawScores p₂) := by
+  rw [rawScores_eq_fold, rawScores_eq_fold, sem_fold, sem_fold]
+  exact hf.foldl_eq' (fun x _ y _ z => upd_comm z x y) _
+
+/-- two profiles that hold the same ballots with the same counts: the same `(candidate, grade, count)` increments up to
+    order (this forgets the order of the ballots AND the order in which a ballot lists its candidates) and the same
+    number of voters -/
+def SameBallots (p₁ p₂ : SProfile) : Prop := (flat p₁).Perm (flat p₂) ∧ totalVotes p₁ = totalVotes p₂
+
+instance (p₁ p₂ : SProfile) : Decidable (SameBallots p₁ p₂) := by unfold SameBallots; infer_instance
+
+theorem sameBallots_of_perm {p₁ p₂ : SProfile} (h : p₁.Perm p₂) : SameBallots p₁ p₂ :=
+  ⟨h.flatMap_right _, by unfold totalVotes; exact (h.map _).sum_eq⟩
+
+/-- ballots re-listed: position by position the same ballot up to the order of its `(candidate, grade)` pairs -/
+theorem sameBallots_of_forall₂ {p₁ p₂ : SProfile}
+    (h : List.Forall₂ (fun a b : SBallot × Int => a.1.Perm b.1 ∧ a.2 = b.2) p₁ p₂) : SameBallots p₁ p₂ := by
+  induction h with
+  | nil => exact ⟨List.Perm.refl _, rfl⟩
+  | cons hab _ ih =>
+    rename_i a b l₁ l₂ _
+    refine ⟨?_, ?_⟩
+    · unfold flat
+      rw [List.flatMap_cons, List.flatMap_cons, hab.2]
+      exact (hab.1.map _).append ih.1
+    · unfold totalVotes
+      rw [List.map_cons, List.map_cons, List.sum_cons, List.sum_cons, hab.2]
+      congr 1
+      exact ih.2
+
+theorem SameBallots.trans {p₁ p₂ p₃ : SProfile} (h₁ : SameBallots p₁ p₂) (h₂ : SameBallots p₂ p₃) : SameBallots p₁ p₃ :=
+  ⟨h₁.1.trans h₂.1, h₁.2.trans h₂.2⟩
+
+/-! ### tables up to insertion order (outer and inner) -/
+
+def EntryEquiv (x y : Cand × CScores) : Prop := x.1 = y.1 ∧ CEquiv x.2 y.2
+
+/-- the same nested dict up to the insertion order of the candidates and of the grades of each candidate -/
+def TableEquiv (t₁ t₂ : ScoreTable) : Prop := ∃ t', t₁.Perm t' ∧ List.Forall₂ EntryEquiv t' t₂
+
+theorem tableEquiv_of_sem {t₁ t₂ : ScoreTable} (h₁ : TWF t₁) (h₂ : TWF t₂) (h : sem t₁ = sem t₂) : TableEquiv t₁ t₂ := by
+  -- every entry of `t₂` has its counterpart in `t₁`
+  have key : ∀ q ∈ t₂, ∃ cs, dget t₁ q.1 = some cs ∧ (q.1, cs) ∈ t₁ ∧ CEquiv cs q.2 := by
+    intro q hq
+    have e2 : dget t₂ q.1 = some q.2 := (dget_eq_some_iff h₂.1).mpr hq
+    have := congrFun h q.1
+    unfold sem at this
+    rw [e2] at this
+    cases e1 : dget t₁ q.1 with
+    | none => rw [e1] at this; cases this
+    | some cs =>
+      rw [e1] at this
+      simp only [Option.map_some, Option.some.injEq] at this
+      have hm : (q.1, cs) ∈ t₁ := (dget_eq_some_iff h₁.1).mp e1
+      exact ⟨cs, rfl, hm, perm_of_dget_eq (h₁.2 _ hm) (h₂.2 _ hq) (fun k => congrFun this k), h₁.2 _ hm⟩
+  refine ⟨t₂.map (fun q => (q.1, (dget t₁ q.1).getD [])), ?_, ?_⟩
+  · have hk : (t₂.map (fun q => (q.1, (dget t₁ q.1).getD []))).map (·.1) = t₂.map (·.1) := by
+      rw [List.map_map]; rfl
+    apply (List.perm_ext_iff_of_nodup (nodup_of_nodup_keys h₁.1) (nodup_of_nodup_keys (by rw [hk]; exact h₂.1))).mpr
+    rintro ⟨c, cs⟩
+    rw [List.mem_map]
+    constructor
+    · intro hm
+      have e1 : dget t₁ c = some cs := (dget_eq_some_iff h₁.1).mpr hm
+      have := congrFun h c
+      unfold sem at this
+      rw [e1] at this
+      cases e2 : dget t₂ c with
+      | none => rw [e2] at this; cases this
+      | some x =>
+        refine ⟨(c, x), (dget_eq_some_iff h₂.1).mp e2, ?_⟩
+        simp only [e1, Option.getD_some]
+    · rintro ⟨q, hq, e⟩
+      obtain ⟨cs', e1, hm, _⟩ := key q hq
+      rw [e1] at e
+      simp only [Option.getD_some] at e
+      rw [← e]; exact hm
+  · rw [List.forall₂_map_left_iff, List.forall₂_same]
+    intro q hq
+    obtain ⟨cs', e1, _, hce⟩ := key q hq
+    rw [e1]
+    exact ⟨rfl, hce⟩
+
+/-- **`scores` does not depend on the ballot order** but for the insertion order of its two levels -/
+theorem rawScores_perm {p₁ p₂ : SProfile} (h : SameBallots p₁ p₂) : TableEquiv (rawScores p₁) (rawScores p₂) :=
+  tableEquiv_of_sem (TWF_rawScores p₁) (TWF_rawScores p₂) (sem_rawScores_perm h.1)
+
+/-- composing the two halves of a table equivalence under `Except` -/
+theorem exceptEquiv_comp {α : Type} {R : α → α → Prop} {x y z : Except Err (List α)}
+    (h₁ : ExceptEquiv List.Perm x y) (h₂ : ExceptEquiv (List.Forall₂ R) y z) :
+    ExceptEquiv (fun a c => ∃ b, a.Perm b ∧ List.Forall₂ R b c) x z := by
+  cases x with
+  | error e =>
+    cases y with
+    | error e' =>
+      cases z with
+      | error e'' => exact Eq.trans h₁ h₂
+      | ok c => exact h₂.elim
+    | ok b => exact h₁.elim
+  | ok a =>
+    cases y with
+    | error e' => exact h₁.elim
+    | ok b =>
+      cases z with
+      | error e'' => exact h₂.elim
+      | ok c => exact ⟨b, h₁, h₂⟩
+
+/-- one entry of `corrected_scores` -/
+def correctEntry (cfg : Cfg) (nVotes : Int) (p : Cand × CScores) : Except Err (Cand × CScores) := do
+  let cs ← correctOne cfg p.2 nVotes
+  pure (p.1, cs)
+
+theorem correctEntry_equiv (cfg : Cfg) (nVotes : Int) (a b : Cand × CScores) (h : EntryEquiv a b) :
+    ExceptEquiv EntryEquiv (correctEntry cfg nVotes a) (correctEntry cfg nVotes b) := by
+  have hc := correctOne_cequiv cfg h.2 nVotes
+  unfold correctEntry
+  cases h1 : correctOne cfg a.2 nVotes with
+  | error e =>
+    cases h2 : correctOne cfg b.2 nVotes with
+    | error e' => rw [h1, h2] at hc; exact hc
+    | ok y => rw [h1, h2] at hc; exact hc.elim
+  | ok x =>
+    cases h2 : correctOne cfg b.2 nVotes with
+    | error e' => rw [h1, h2] at hc; exact hc.elim
+    | ok y => rw [h1, h2] at hc; exact ⟨h.1, hc⟩
+
+theorem correctEntry_error {cfg : Cfg} {nVotes : Int} {p : Cand × CScores} {e : Err}
+    (h : correctEntry cfg nVotes p = .error e) : e = .valueError := by
+  unfold correctEntry at h
+  cases h1 : correctOne cfg p.2 nVotes with
+  | error e' =>
+    rw [h1] at h
+    have := correctOne_error h1
+    subst this
+    injection h with h; exact h.symm
+  | ok x => rw [h1] at h; cases h
+
+/-- **`corrected_scores` does not depend on the ballot order** but for the insertion order of its two levels -/
+theorem correctedScores_same (cfg : Cfg) {p₁ p₂ : SProfile} (h : SameBallots p₁ p₂) :
+    ExceptEquiv TableEquiv (correctedScores cfg p₁) (correctedScores cfg p₂) := by
+  obtain ⟨t', hp, hf⟩ := rawScores_perm h
+  have e : ∀ votes, correctedScores cfg votes = (rawScores votes).mapM (correctEntry cfg (totalVotes votes)) := fun _ => rfl
+  rw [e, e, h.2]
+  exact exceptEquiv_comp
+    (mapM_perm _ .valueError hp (fun x _ e he => correctEntry_error he))
+    (mapM_forall₂ _ _ (correctEntry_equiv cfg _) hf)
+
+/-! ### `aggregate` -/
+
+/-- the one exception an aggregation function raises (on nothing to aggregate) -/
+def aggErr : Agg → Err
+  | .mean => .other "ZeroDivisionError"
+  | .sum => .valueError
+  | .medianLow => .other "StatisticsError"
+
+theorem aggregateOne_error {fn : Agg} {cs : CScores} {e : Err} (h : aggregateOne fn cs = .error e) : e = aggErr fn := by
+  unfold aggregateOne at h
+  cases fn with
+  | mean =>
+    simp only [aggFn, exactMean] at h
+    split at h
+    · injection h with h; exact h.symm
+    · cases h
+  | sum => cases h
+  | medianLow =>
+    simp only [aggFn] at h
+    by_cases hn : expand cs = []
+    · rw [hn, medianLow_nil] at h
+      injection h with h; exact h.symm
+    · obtain ⟨v, hv, _⟩ := medianLow_spec (expand cs) hn
+      rw [hv] at h; cases h
+
+theorem aggregateOne_cequiv (fn : Agg) {a b : CScores} (h : CEquiv a b) : aggregateOne fn a = aggregateOne fn b :=
+  aggFn_perm fn (expand_perm h.1)
+
+def aggEntry (fn : Agg) (p : Cand × CScores) : Except Err (Cand × Rat) := do
+  let v ← aggregateOne fn p.2
+  pure (p.1, v)
+
+theorem aggEntry_equiv (fn : Agg) (a b : Cand × CScores) (h : EntryEquiv a b) :
+    ExceptEquiv (· = ·) (aggEntry fn a) (aggEntry fn b) := by
+  unfold aggEntry
+  rw [aggregateOne_cequiv fn h.2, h.1]
+  cases aggregateOne fn b.2 with
+  | error e => exact rfl
+  | ok v => exact rfl
+
+theorem aggEntry_error {fn : Agg} {p : Cand × CScores} {e : Err} (h : aggEntry fn p = .error e) : e = aggErr fn := by
+  unfold aggEntry at h
+  cases h1 : aggregateOne fn p.2 with
+  | error e' =>
+    rw [h1] at h
+    have := aggregateOne_error h1
+    rw [← this]
+    injection h with h; exact h.symm
+  | ok x => rw [h1] at h; cases h
+
+/-- `aggregate` of equivalent tables: the same dict candidate -> aggregate up to insertion order, or the same exception -/
+theorem aggregate_equiv (fn : Agg) {t₁ t₂ : ScoreTable} (h : TableEquiv t₁ t₂) :
+    ExceptEquiv List.Perm (aggregate fn t₁) (aggregate fn t₂) := by
+  obtain ⟨t', hp, hf⟩ := h
+  have e : ∀ t, aggregate fn t = t.mapM (aggEntry fn) := fun _ => rfl
+  rw [e, e]
+  have h1 := mapM_perm (aggEntry fn) (aggErr fn) hp (fun x _ e he => aggEntry_error he)
+  have h2 := mapM_forall₂ (aggEntry fn) (aggEntry fn) (aggEntry_equiv fn) hf
+  have h3 := exceptEquiv_comp h1 h2
+  cases hx : t₁.mapM (aggEntry fn) with
+  | error e1 =>
+    cases hz : t₂.mapM (aggEntry fn) with
+    | error e2 => rw [hx, hz] at h3; exact h3
+    | ok c => rw [hx, hz] at h3; exact h3.elim
+  | ok a =>
+    cases hz : t₂.mapM (aggEntry fn) with
+    | error e2 => rw [hx, hz] at h3; exact h3.elim
+    | ok c =>
+      rw [hx, hz] at h3
+      obtain ⟨b, hab, hbc⟩ := h3
+      rw [List.forall₂_eq_eq_eq] at hbc
+      subst hbc
+      exact hab
+
+/-- **`ScoreToSimpleVotes.convert`: ballot-order independence.**  The aggregated dict candidate -> score is the same up
+    to insertion order, or both runs raise the same exception.  Every configuration (`mean`/`sum`/`median_low`,
+    `unscored_value`, `min_count`, truncation); no hypothesis on the profile. -/
+theorem convert_same (cfg : Cfg) {p₁ p₂ : SProfile} (h : SameBallots p₁ p₂) :
+    ExceptEquiv List.Perm (convert cfg p₁) (convert cfg p₂) := by
+  have hc := correctedScores_same cfg h
+  unfold convert
+  cases h1 : correctedScores cfg p₁ with
+  | error e =>
+    cases h2 : correctedScores cfg p₂ with
+    | error e' => rw [h1, h2] at hc; exact hc
+    | ok y => rw [h1, h2] at hc; exact hc.elim
+  | ok x =>
+    cases h2 : correctedScores cfg p₂ with
+    | error e' => rw [h1, h2] at hc; exact hc.elim
+    | ok y => rw [h1, h2] at hc; exact aggregate_equiv cfg.fn hc
+
+/-- **`ScoreVoting.evaluate`: ballot-order independence.**  The same exception, or `SlotsEquiv` selections (the same
+    elected set, the same tie as a set, the same number of tied seats), for every number of seats. -/
+theorem scoreVoting_same (cfg : Cfg) {p₁ p₂ : SProfile} (h : SameBallots p₁ p₂) (n : Nat) :
+    ExceptEquiv SlotsEquiv (scoreVoting cfg p₁ n) (scoreVoting cfg p₂ n) := by
+  have hc := convert_same cfg h
+  unfold scoreVoting
+  cases h1 : convert cfg p₁ with
+  | error e =>
+    cases h2 : convert cfg p₂ with
+    | error e' => rw [h1, h2] at hc; exact hc
+    | ok y => rw [h1, h2] at hc; exact hc.elim
+  | ok x =>
+    cases h2 : convert cfg p₂ with
+    | error e' => rw [h1, h2] at hc; exact hc.elim
+    | ok y => rw [h1, h2] at hc; exact getNBest_perm x y hc n
+
+/-- `corrected_scores`, profile given in another ballot order -/
+theorem correctedScores_perm (cfg : Cfg) {p₁ p₂ : SProfile} (h : p₁.Perm p₂) :
+    ExceptEquiv TableEquiv (correctedScores cfg p₁) (correctedScores cfg p₂) :=
+  correctedScores_same cfg (sameBallots_of_perm h)
+
+/-- **`ScoreToSimpleVotes.convert`: ballot-order independence** (the profile dict in another insertion order) -/
+theorem convert_perm (cfg : Cfg) {p₁ p₂ : SProfile} (h : p₁.Perm p₂) :
+    ExceptEquiv List.Perm (convert cfg p₁) (convert cfg p₂) :=
+  convert_same cfg (sameBallots_of_perm h)
+
+/-- **`ScoreVoting.evaluate`: ballot-order independence** (the profile dict in another insertion order) -/
+theorem scoreVoting_perm (cfg : Cfg) {p₁ p₂ : SProfile} (h : p₁.Perm p₂) (n : Nat) :
+    ExceptEquiv SlotsEquiv (scoreVoting cfg p₁ n) (scoreVoting cfg p₂ n) :=
+  scoreVoting_same cfg (sameBallots_of_perm h) n
+
+example : [([(0, (5 : Rat)), (1, 2)], (2 : Int)), ([(1, 5), (0, 1)], 1), ([(2, 3)], 1)].Perm
+    [([(2, 3)], 1), ([(1, 5), (0, 1)], 1), ([(0, 5), (1, 2)], 2)] := by decide +kernel
+example : convert { fn := .mean, unscored := .none, minCount := 0, trunc := .off, bottom := 0 }
+    [([(0, 5), (1, 2)], 2), ([(1, 5), (0, 1)], 1), ([(2, 3)], 1)] = .ok [(0, 11 / 3), (1, 3), (2, 3)] := by decide +kernel
+example : convert { fn := .mean, unscored := .none, minCount := 0, trunc := .off, bottom := 0 }
+    [([(2, 3)], 1), ([(1, 5), (0, 1)], 1), ([(0, 5), (1, 2)], 2)] = .ok [(2, 3), (1, 3), (0, 11 / 3)] := by decide +kernel
 
 end VL.Perm
